@@ -2,6 +2,7 @@
 from hypothesis import strategies as st
 
 import gen_misc
+import gen_util
 from checks import _prog
 
 ID = "C04"
@@ -25,7 +26,7 @@ REQUIRED_CLASSES = ["param_POSITIONAL_ONLY", "param_VAR_POSITIONAL", "param_KEYW
 def strategy(tier):
     general = _prog.strategy(tier)
     shapes = gen_misc.c04_cases()
-    return st.one_of(shapes, shapes, shapes, general)
+    return gen_util.weighted((3, shapes), (1, general))
 
 
 def fixed_cases(tier):
